@@ -390,7 +390,7 @@ def jobs(tier, seed):
             for k in (1, 2, 3, 4):
                 out.append(dict(common, label="exit%s-%d:%s" % (ms, k, ",".join(sk)), harness="exit_midrun", args={"mnems": sk, "mode": mode, "k": k}, cost=8, validate_every=3))
     for k in range(13):
-        out.append(dict(common, label="toy-run-op%d" % k, harness="toy_run", args={"steps": 2 if tier == "quick" else 3, "opcode": k}, cost=100, validate_every=10))
+        out.append(dict(common, label="toy-run-op%d" % k, harness="toy_run", args={"steps": 2, "opcode": k}, cost=100, validate_every=10))
     for kind in MODES + ["toy"]:
         for it in range(len(EMPTY_TEXTS)):
             out.append({"label": "empty-%s-%d" % (kind[:4], it), "harness": "empty", "args": {"kind": kind, "it": it}, "cost": 1})
